@@ -297,7 +297,8 @@ def relu_backward(grad:np.ndarray, a:np.ndarray) -> np.ndarray:
 
 
 def leaky_relu_forward(a:np.ndarray, neg_slope:float) -> np.ndarray:
-    return np.maximum(neg_slope * a, a)
+    # x for x > 0, neg_slope * x otherwise (np.maximum(neg_slope * a, a) is only that for slopes <= 1)
+    return np.where(a > 0, a, neg_slope * a)
 
 def leaky_relu_backward(grad:np.ndarray, a:np.ndarray, neg_slope:float) -> np.ndarray:
     return grad * ((a > 0) + neg_slope * (a <= 0))
